@@ -547,29 +547,36 @@ func (o *loopOracle) onCycle(c *Cycle) {
 	// the request is observable when the fan reads back what was written through an identity map
 	observable := lf.identity && lf.spec.Driver.Quant == "" && !lf.spec.Driver.IgnoreWrites
 	faulty := false
-	// blind: every read of the PWM value in this cycle ended in an error (nothing else is wrong with the cycle):
-	// fan2go cannot know what the fan shows
-	blind := len(c.PwmReads) > 0 && !lf.unreadable
+	// blind: reads of the PWM value in this cycle ended in an error (and nothing else is wrong with the cycle: no
+	// lying read, no write fault, no third party): fan2go has seen no value of its own that would justify not
+	// writing - unless the fan does show an acceptable value, which is what is judged
+	blind := false
+	lying := false
 	for _, w := range c.Writes {
 		if w.Err != "" || w.Fault != "" {
-			faulty, blind = true, false
+			faulty, lying = true, true
 		}
 	}
 	for _, rd := range c.PwmReads {
 		if (rd.Err != "" || rd.Fault != "") && !lf.unreadable {
 			faulty = true
 		}
-		if rd.Err == "" {
-			blind = false
+		if rd.Err != "" && !lf.unreadable {
+			blind = true
+		} else if rd.Fault != "" {
+			lying = true
 		}
 	}
 	if lf.envSeq > lf.lastWriteSeq || lf.polluted {
 		// a third party wrote the file after fan2go's last regulating write: it no longer shows the request
-		faulty, blind = true, false
+		faulty, lying = true, true
+	}
+	if lying {
+		blind = false
 	}
 	req := c.After.Pwm
 	if blind {
-		res.Probe("blind-cycles(every PWM read failed)")
+		res.Probe("blind-cycles(PWM reads failed)")
 	}
 	if o.props["C12"] && directNoLimit(lf.spec) && (!faulty || blind) && c.After.Raises == 0 && lf.obsRaises == 0 {
 		// the direct algorithm: on a full-range fan the request equals the curve value; on a fan with limits it
@@ -609,7 +616,7 @@ func (o *loopOracle) onCycle(c *Cycle) {
 				if blind {
 					// (a failed read may also be a control error that ends regulation: judged when the next cycle
 					// of this fan shows that regulation went on)
-					lf.pendingBlind = &pendingViolation{seq: c.EndPSeq, t: c.EndT, msg: msg + " (every PWM read of the cycle had failed, and regulation went on)"}
+					lf.pendingBlind = &pendingViolation{seq: c.EndPSeq, t: c.EndT, msg: msg + " (PWM reads of the cycle had failed - no read of this cycle showed fan2go an acceptable value - and regulation went on)"}
 				} else {
 					res.Violate("C12", "skip", "skip map="+mapKind(lf.spec), c.EndPSeq, c.EndT, "%s", msg)
 				}
